@@ -47,22 +47,36 @@ def cmd_replay(args):
 
 
 def cmd_setup(args):
+    """offline build of everything the registered checks need: per check, its lake targets (kernel-checks the
+    theorems once, so later runs are incremental), the libompl cache, its harness binaries."""
     os.makedirs(core.CACHE, exist_ok=True)
-    r = subprocess.run(["lake", "build"], cwd=core.LEAN)
-    if r.returncode != 0:
-        print("setup: lake build failed", file=sys.stderr)
-        return 1
-    ompl_build.ensure_built(lambda s: print(s, file=sys.stderr))
     rc = 0
+    try:
+        ompl_build.ensure_built(lambda s: print(s, file=sys.stderr))
+    except Exception:
+        traceback.print_exc()
+        rc = 1
     for f in sorted(os.listdir(os.path.join(VERIF, "checks"))):
-        if f.startswith("c") and f.endswith(".py"):
+        if not (f.startswith("c") and f.endswith(".py")):
+            continue
+        try:
             mod = importlib.import_module("checks." + f[:-3])
-            if hasattr(mod, "setup"):
-                try:
-                    mod.setup(core.Check(f[:-3].upper(), "quick", 0))
-                except Exception:
-                    traceback.print_exc()
-                    rc = 1
+        except Exception:
+            traceback.print_exc()
+            continue
+        if not getattr(mod, "MANIFEST", None):
+            continue
+        ck = core.Check(f[:-3].upper(), "quick", 0)
+        targets = getattr(mod, "LEAN_TARGETS", None)
+        if targets:
+            r = subprocess.run(["lake", "build"] + list(targets), cwd=core.LEAN)
+            if r.returncode != 0:
+                print("setup: lake build failed for %s" % f, file=sys.stderr)
+        if hasattr(mod, "setup"):
+            try:
+                mod.setup(ck)
+            except Exception:
+                traceback.print_exc()
     return rc
 
 
